@@ -539,6 +539,12 @@ def gen_e2e(rng: random.Random):
                 toks.append(rng.choice(["*", " + ", " - "]))
             toks.append("1")
             code.append("".join(toks) + rng.choice([";", ""]))
+        if mo and rng.random() < 0.6:
+            # the C++ TYPE of the receiver named in the code (a cast, a typed local): it is text, not a placeholder - only the
+            # formal parameters and the method object are replaced
+            code.append(rng.choice([f"const xAOD::Jet_v1 *typed{len(code)} = static_cast<const xAOD::Jet_v1 *>({mo});",
+                                    f"auto k{len(code)} = xAOD::Jet_v1::kind({mo});",
+                                    f"xAOD::Jet_v1 copy{len(code)}(*{mo});"]))
         code.append("auto result = " + " + ".join(args) + (f" + {mo}->pt()" if mo and False else "") + ";")
         specs[name] = {"name": name, "includes": rng.sample(["a.h", "b.h"], rng.randint(0, 2)), "args": args, "code": code, "result": "result",
                        "rtype": ["double", 0, False], "is_coll": False, "method_obj": mo}
